@@ -35,6 +35,11 @@ Literal(l) == CASE l = "t" -> <<116, 114, 117, 101>>
                 [] l = "f" -> <<102, 97, 108, 115, 101>>
                 [] l = "n" -> <<110, 117, 108, 108>>
 
+\* sub-context of a string body state just after a simple escape: one per escape, because the
+\* implementation's automata have one state per escape
+EscCtx(b) == CASE b = 34 -> "eq" [] b = 92 -> "eb" [] b = 47 -> "es" [] b = 98 -> "e8" [] b = 102 -> "ef"
+               [] b = 110 -> "en" [] b = 114 -> "er" [] b = 116 -> "et" [] OTHER -> "e"
+
 \* state after a complete value of kind vk that sat at context ctx, given the
 \* stack *after* any pop
 AfterValue(cfg, stk, ctx, vk) ==
@@ -99,7 +104,7 @@ Step(cfg, b) ==
                    ELSE IF b = 92 THEN Go(cfg, St("SE", c, "", 0, 0))
                    ELSE IF IsCtl(b) THEN Err(cfg)
                    ELSE Go(cfg, St("S", c, "p", 0, 0))
-    [] k = "SE" -> IF IsSimpleEsc(b) THEN Go(cfg, St("S", c, "e", 0, 0))
+    [] k = "SE" -> IF IsSimpleEsc(b) THEN Go(cfg, St("S", c, EscCtx(b), 0, 0))
                    ELSE IF b = 117 THEN Go(cfg, St("SU", c, "", 0, 0))
                    ELSE Err(cfg)
     [] k = "SU" -> IF ~IsHex(b) THEN Err(cfg)
